@@ -11,9 +11,9 @@ from .. import sp
 
 ID = "C01"
 META = {
-    "technique": "runtime monitoring: escape monitor + abort/failed-block pairing via sys.monitoring RAISE events + logical step budget, over bounded-exhaustive token sequences, Unicode garbage and size-scaled families",
-    "level_text": "parse_string and write_string are executed on every token sequence up to the bound, on Unicode garbage, on truncations/corruptions of valid documents and on size-scaled families (10^3..10^5 lines, deep nesting, unterminated blocks); any escaping exception, a non-Library/str result, a failed block without error/raw, an abort that produced no failed block, or a blown step budget is a violation.",
-    "level_note": "'never hangs' is decided as a bounded number of repository function entries per parse (a loop that makes no calls would only trip the wall-clock watchdog = inconclusive)",
+    "technique": "runtime monitoring: escape monitor + abort/failed-block pairing via sys.monitoring RAISE events + logical step budget (PY_START) + CPU-time budget (ITIMER_VIRTUAL), over bounded-exhaustive token sequences, Unicode garbage, a source-derived literal dictionary and size-scaled families",
+    "level_text": "parse_string and write_string are executed on every token sequence up to the bound, on Unicode garbage, on truncations/corruptions of valid documents and on size-scaled families (10^3..10^5 lines, deep nesting, unterminated blocks); also @string reference chains/cycles and one family per string literal found in the repository source (magic-value branches); any escaping exception, a non-Library/str result, a failed block without error/raw, an abort that produced no failed block, or a blown step/CPU budget is a violation.",
+    "level_note": "'never hangs' is decided as a bounded number of repository function entries per parse plus a CPU-time budget of the worker process (20 s + 1 s per 2000 characters); the wall-clock watchdog only yields inconclusive",
 }
 RULE = ("cases = all token sequences <= L over the splitter alphabet, random Unicode garbage, prefixes/corruptions of grammar "
         "derivations, size-scaled families; non-trivial = the parse produced >= 1 failed block, or the text has >= 1000 lines, "
